@@ -356,6 +356,23 @@ fn real_main() {
         let src = attrs_text(&c["attrs"]);
         let raw = dispatch(did, &src);
         let mut mm = vh::recv::compare(&c["expect"], &raw);
+        // C08, behaviourally: the same items written as a single attribute give the identical value or the identical errors
+        // (message and location path of every leaf, in order; spans naturally differ)
+        if c["merged"].as_array().map(|a| !a.is_empty()).unwrap_or(false) {
+            let one = dispatch(did, &attrs_text(&c["merged"]));
+            *counts.entry("merged_reruns".into()).or_default() += 1;
+            if raw.panic.is_none() && one.panic.is_none() {
+                if raw.ok.is_some() != one.ok.is_some() {
+                    mm.push(vh::recv::Mismatch { class: "merge", why: format!("split over several attributes: {}, written as one attribute: {}", if raw.ok.is_some() { "accepted" } else { "rejected" }, if one.ok.is_some() { "accepted" } else { "rejected" }) });
+                } else if raw.ok != one.ok {
+                    mm.push(vh::recv::Mismatch { class: "merge", why: format!("value {} when split over several attributes, {} when written as one", raw.ok.clone().unwrap_or_default(), one.ok.clone().unwrap_or_default()) });
+                } else {
+                    let a: Vec<&String> = raw.leaves.iter().map(|l| &l.text).collect();
+                    let b: Vec<&String> = one.leaves.iter().map(|l| &l.text).collect();
+                    if a != b { mm.push(vh::recv::Mismatch { class: "merge", why: format!("errors {:?} when split over several attributes, {:?} when written as one", a, b) }); }
+                }
+            }
+        }
         // C17 soundness, behaviourally: writing the suggested name instead must no longer be rejected as unknown
         for l in &raw.leaves {
             if l.kind == "unknown" && !l.alt.is_empty() {
